@@ -41,7 +41,9 @@ def _re_union(ranges):
     return '(re.union ' + ' '.join(parts) + ')'
 
 
+import threading
 _cache = {}
+_lock = threading.Lock()
 
 
 def char_classes():
@@ -50,11 +52,13 @@ def char_classes():
     ISDIGIT = characters c with c.isdigit()
     DECIMAL = characters accepted by int() as digits (unicode category Nd)
     """
-    if not _cache:
-        _cache['WS'] = _ranges(lambda c: c.isspace())
-        _cache['ISDIGIT'] = _ranges(lambda c: c.isdigit())
-        _cache['DECIMAL'] = _ranges(lambda c: unicodedata.category(c) == 'Nd')
-        _cache['UPPERABLE'] = None
+    if 'done' not in _cache:
+        with _lock:
+            if 'done' not in _cache:
+                _cache['WS'] = _ranges(lambda c: c.isspace())
+                _cache['ISDIGIT'] = _ranges(lambda c: c.isdigit())
+                _cache['DECIMAL'] = _ranges(lambda c: unicodedata.category(c) == 'Nd')
+                _cache['done'] = True
     return _cache
 
 
@@ -99,6 +103,7 @@ def pure_defs():
 (define-fun re_ascii_digit () RegLan (re.range "0" "9"))
 ; s.isdigit()
 (define-fun py_isdigit ((s String)) Bool (str.in_re s (re.+ re_isdigit)))
+(define-fun py_isdecimal ((s String)) Bool (str.in_re s (re.+ re_decimal)))
 ; the text int() accepts after stripping: optional sign, decimal digits, single underscores between digits
 (define-fun re_int_body () RegLan (re.++ (re.opt (re.union (str.to_re "+") (str.to_re "-"))) (re.+ re_decimal) (re.* (re.++ (str.to_re "_") (re.+ re_decimal)))))
 (define-fun py_int_ok ((s String)) Bool (str.in_re s (re.++ (re.* re_ws) re_int_body (re.* re_ws))))
@@ -171,6 +176,16 @@ def minimal_prelude(body, extra_text=''):
     """Only those declare-fun/define-fun forms of the prelude (and extra_text) that the query
     body references, transitively.  The datatype is always included."""
     key = extra_text
+    with _lock2:
+        _fill_forms(key, extra_text)
+    table = _forms_cache[key]
+    return _select(table, body)
+
+
+_lock2 = threading.Lock()
+
+
+def _fill_forms(key, extra_text):
     if key not in _forms_cache:
         forms = _split_forms(pure_defs() + extra_text)
         table = []
@@ -178,7 +193,9 @@ def minimal_prelude(body, extra_text=''):
             m = _re.match(r'\((?:declare-fun|define-fun|declare-const|define-fun-rec)\s+([^\s()]+)', f)
             table.append((m.group(1) if m else None, f, set(_TOKEN.findall(f))))
         _forms_cache[key] = table
-    table = _forms_cache[key]
+
+
+def _select(table, body):
     need = set(_TOKEN.findall(body))
     included = [False] * len(table)
     changed = True
